@@ -78,6 +78,8 @@ pub struct Stats {
     pub known_hits: BTreeMap<String, u64>,
     pub exhaustive: Vec<String>,
     pub notes: Vec<String>,
+    /// the whole space of the property was enumerated (finite properties)
+    pub fully_exhaustive: bool,
 }
 
 impl Stats {
@@ -135,6 +137,7 @@ impl Stats {
                 self.exhaustive.push(e);
             }
         }
+        self.fully_exhaustive |= o.fully_exhaustive;
         for e in o.notes {
             if !self.notes.contains(&e) {
                 self.notes.push(e);
@@ -464,6 +467,9 @@ pub fn finish(ctx: &Ctx, mut st: Stats, rule: &str, assumptions: &[&str], wall_s
     cov.insert("known_finding_hits".into(), json!(st.known_hits));
     cov.insert("notes".into(), json!(st.notes));
     cov.insert("config".into(), json!(cfg_name()));
+    if st.fully_exhaustive {
+        cov.insert("exhaustive".into(), json!(true));
+    }
     let ev = json!({
         "property_id": ctx.prop,
         "tier": ctx.tier.name(),
